@@ -189,6 +189,10 @@ pub fn damage(r: &Rendering) -> Vec<Damaged> {
             out.push(Damaged { op: 13, variant: "directive-without-document-start", site: 0, text: format!("%YAML 1.2\n{rest}") });
         }
     }
+    // 13b. a reserved directive in front of a document that has no '---'
+    if !t.starts_with('%') && !t.starts_with("---") && !t.starts_with('#') && !t.trim_start().is_empty() {
+        out.push(Damaged { op: 13, variant: "reserved-directive-without-document-start", site: 0, text: format!("%FOO bar\n{t}") });
+    }
     // 14. content after a document-end marker on the same line
     let mut pos = 0;
     for line in t.split_inclusive('\n') {
